@@ -1,15 +1,15 @@
 CONSTANTS
-  Types <- T1
-  TypeSeq <- T1s
+  Types <- T2
+  TypeSeq <- T2s
   Owners <- O2
   SubOpts <- OptOnce
   AutoOpts <- AutoNone
-  RVs = {"none", "false", "haltremove"}
+  RVs <- RVremove
   UnsubModes = {"handler", "handlerT", "eid", "eidT", "pair"}
   Forms = {"inst"}
   NoErrs = {FALSE}
-  RaiseTypes <- TA
-  SubTypes <- TA
+  RaiseTypes <- TAB
+  SubTypes <- TAB
   MaxSubs = 2
   MaxRaises = 2
   MaxUnsubs = 1
